@@ -1375,3 +1375,75 @@ def C19(ctx):
                     nontrivial.append((ctx.spec['id'], pol, phase, host.split('/')[0], t))
         classes['steps'] += 1
     return dict(nontrivial=nontrivial, classes=classes)
+
+
+# ---------------------------------------------------------------------------------------------- C12
+def C12(ctx):
+    """Exceptions from behaviours (fault enumeration: every callback position of the designated step is a throw point).
+    Model-free: nothing escapes; exactly one exception_caught for the fault, carrying the occurrence being processed;
+    the trace up to the throw equals the fault-free run; no no_transition for the event when the machine on which
+    process_event was called caught it. Model: the whole faulted step (catching level, reaction of enclosing levels,
+    no further behaviour of the aborted transition), the active configuration afterwards (switch policy x phase), and all
+    continuation steps (not wedged, pending occurrences still processed in order)."""
+    st = ctx.static
+    classes = Counter()
+    nontrivial = []
+    ex = getattr(ctx, 'extra', None)
+    rootname = ctx.spec['root']['name']
+    for i, toks in enumerate(ctx.sut):
+        if any(t.startswith('ESCAPED') for t in toks):
+            fail('C12', 'an exception escaped the library call', ctx, i)
+    if ex is None:
+        # fault-free baseline: the model must agree (keeps the comparison below meaningful)
+        for i in range(len(ctx.sut)):
+            if ctx.sut[i] != ctx.model[i]:
+                classes['baseline_diverges_from_model'] += 1
+                break
+        return dict(nontrivial=[], classes=classes)
+    fi, k, base = ex['fault_index'], ex['k'], ex['baseline']
+    toks = ctx.sut[fi]
+    if '!throw' not in toks:
+        classes['throw_position_not_reached'] += 1
+        return dict(nontrivial=[], classes=classes)
+    tpos = toks.index('!throw')
+    # 7. prefix up to the throw equals the fault-free run
+    for j in range(fi):
+        if ctx.sut[j] != base[j]:
+            fail('C12', 'run with a fault injected later differs from the fault-free run before the fault (op %d)' % j, ctx, j)
+    if toks[:tpos] != base[fi][:tpos]:
+        fail('C12', 'behaviours before the throw differ from the fault-free run', ctx, fi, baseline=' '.join(base[fi]))
+    host = parse(toks[tpos - 1]) if tpos else None
+    # 2. exactly one exception_caught for this fault, with the occurrence being processed
+    xcs = [parse(t) for t in toks[tpos:] if t.startswith('xc:')]
+    # (scripts in the continuation may inject further faults; in the faulted op there is exactly this one)
+    nthrows = sum(1 for t in toks if t == '!throw')
+    if len(xcs) != nthrows:
+        fail('C12', 'exception_caught invoked %d times for %d thrown exception(s)' % (len(xcs), nthrows), ctx, fi)
+    if host and xcs and xcs[0][3] != host[3]:
+        fail('C12', 'exception_caught received %s but the behaviour that threw was processing %s' % (xcs[0][3], host[3]), ctx, fi)
+    # 4. no no_transition for that event when the outermost machine caught it
+    if xcs and xcs[0][1] == rootname and host:
+        for t in toks[tpos:]:
+            p = parse(t)
+            if p and p[0] == 'nt' and p[3] == host[3]:
+                fail('C12', 'no_transition reported for the event whose processing threw', ctx, fi)
+    # 3/5/6: faulted step, configuration afterwards and continuation equal the model
+    for j in range(fi, len(ctx.sut)):
+        a, b = ctx.sut[j], ctx.model[j]
+        if a != b:
+            kk = 0
+            while kk < min(len(a), len(b)) and a[kk] == b[kk]:
+                kk += 1
+            what = 'faulted step' if j == fi else 'continuation step %d after the fault' % (j - fi)
+            sig = None
+            fail('C12', '%s differs from the model at token %d: %s vs %s' % (what, kk, a[kk] if kk < len(a) else None, b[kk] if kk < len(b) else None),
+                 ctx, j, fault_op=cases.op_str(ctx.case[fi]), throw_host=toks[tpos - 1] if tpos else None, sig=sig)
+    phase = {'g': 'guard', 'a': 'action', 'en': 'entry', 'ex': 'exit', 'xc': 'exception_caught'}.get(host[0] if host else None, '?')
+    level = st.level.get(behaviour_fsm(ctx, host), 1) if host else 1
+    classes['fault_in_' + phase] += 1
+    classes['fault_at_level_%d' % level] += 1
+    if host and host[3] == 'none':
+        classes['fault_in_completion_transition'] += 1
+    if phase != 'guard' and len(ctx.sut) > fi + 1:
+        nontrivial.append((ctx.spec['id'], ids_before(ctx, fi), cases.op_str(ctx.case[fi]).split(';')[0].rsplit(':', 1)[0], k, phase))
+    return dict(nontrivial=nontrivial, classes=classes)
